@@ -12,6 +12,7 @@ import (
 	"sync"
 	"sync/atomic"
 
+	aggdb "github.com/agglayer/aggkit/aggsender/db"
 	"github.com/agglayer/aggkit/bridgesync"
 	"github.com/agglayer/aggkit/l1infotreesync"
 	aggsync "github.com/agglayer/aggkit/sync"
@@ -19,6 +20,7 @@ import (
 	aggkittypes "github.com/agglayer/aggkit/types"
 	"github.com/ethereum/go-ethereum/common"
 	ethtypes "github.com/ethereum/go-ethereum/core/types"
+	"verif/h/kit"
 	"verif/h/ref"
 )
 
@@ -368,6 +370,38 @@ type World struct {
 	free []*StoreSet
 	seq  atomic.Int64
 	cw   *claimWorld
+
+	tmplOnce sync.Once
+	tmpl     []byte
+}
+
+// EmptyCertDB returns the bytes of an empty certificate database exactly as the real constructor
+// creates it (all migrations applied), with the fault triggers installed when faults is set. A new
+// or a lost database of an execution is a copy of it; the real constructor is still run on the copy.
+func (w *World) EmptyCertDB(faults bool) []byte {
+	w.tmplOnce.Do(func() {
+		if err := os.MkdirAll(w.dir, 0o755); err != nil {
+			panic(err)
+		}
+		p := filepath.Join(w.dir, "empty-cert-db.sqlite")
+		st, err := aggdb.NewAggSenderSQLStorage(kit.Logger(), aggdb.AggSenderSQLStorageConfig{DBPath: p, KeepCertificatesHistory: true})
+		if err != nil {
+			panic(fmt.Sprintf("senderkit: template certificate DB: %v", err))
+		}
+		if faults {
+			installFaultTriggers(st.VerifDB())
+		}
+		if _, err := st.VerifDB().Exec(`PRAGMA wal_checkpoint(TRUNCATE)`); err != nil {
+			panic(err)
+		}
+		st.VerifDB().Close()
+		b, err := os.ReadFile(p)
+		if err != nil {
+			panic(err)
+		}
+		w.tmpl = b
+	})
+	return w.tmpl
 }
 
 // ScratchRoot returns the parent directory for scratch files.
